@@ -223,6 +223,10 @@ func ruleOutParamTable(r *rep.Report, p *load.Program, an *mem.Analysis) {
 		ok := true
 		for _, w := range an.Of(fn).Writes {
 			if w.Root.Kind == mem.Param && !intIn(allowed, w.Root.Idx) {
+				// an unexported helper may have further out-parameters as long as every caller hands it memory of its own
+				if !token.IsExported(fn.Name()) && fn.Signature.Recv() == nil && extraOutParamLocal(p, an, fn, w.Root.Idx) {
+					continue
+				}
 				ok = false
 				r.Fail("M2-out-params", cfg, q+" writes only its out-parameter", ssau.InstrPos(p, w.Instr), "outparam:"+q+fmt.Sprint(w.Root.Idx), fmt.Sprintf("%s writes through parameter %d (allowed: %v)", q, w.Root.Idx, allowed))
 			}
@@ -341,4 +345,34 @@ func ruleExternals(r *rep.Report, p *load.Program, an *mem.Analysis, roots []*ss
 		r.OK("M5-no-concurrency", cfg, cone+": no goroutine / channel / defer constructs", fmt.Sprintf("%d reachable functions", len(mod)))
 	}
 	// global reads of mutable state: any global read in the cone must never be written (M1 covers writes); list them
+}
+
+// extraOutParamLocal: every call of the unexported function fn passes, as argument idx, memory allocated by the caller
+// itself (a local), and fn has at least one caller.
+func extraOutParamLocal(p *load.Program, an *mem.Analysis, fn *ssa.Function, idx int) bool {
+	calls := 0
+	for _, caller := range ssau.AllFuncs(p) {
+		if len(caller.Blocks) == 0 {
+			continue
+		}
+		for _, b := range caller.Blocks {
+			for _, in := range b.Instrs {
+				c, ok := in.(ssa.CallInstruction)
+				if !ok || c.Common().StaticCallee() != fn || idx >= len(c.Common().Args) {
+					continue
+				}
+				calls++
+				roots := an.Of(caller).Pts[c.Common().Args[idx]]
+				if len(roots) == 0 {
+					return false
+				}
+				for rt := range roots {
+					if rt.Kind != mem.Alloc && rt.Kind != mem.Fresh {
+						return false
+					}
+				}
+			}
+		}
+	}
+	return calls > 0
 }
